@@ -745,6 +745,14 @@ impl Core {
         crate::verif::session::install_connector(&self.context, connector)
     }
 
+    /// Resolver answers and outbound TCP connection attempts of the direct forwarder go to `plan`
+    pub fn verif_install_net_plan(
+        &self,
+        plan: Arc<dyn crate::verif::net::NetPlan>,
+    ) -> crate::verif::net::NetPlanGuard {
+        crate::verif::net::install(&self.context, plan)
+    }
+
     /// What `on_new_tls_connection` does after the TLS handshake: create the HTTP codec for
     /// `protocol` over `io` and hand it to the handler of `channel`.
     pub async fn verif_serve_connection<IO>(
